@@ -97,15 +97,24 @@ def indentChars (n : Nat) : List Char → List Char
   | [] => []
   | c :: rest => if c == '\n' then '\n' :: (List.replicate n ' ' ++ indentChars n rest) else c :: indentChars n rest
 
-/-- the size above which the model does not follow the allocation of the padding -/
-def indentMax : Int := 65536
+/-- `strings.Count(data, "\n")` -/
+def countNewlines (cs : List Char) : Nat := (cs.filter (· == '\n')).length
 
+/-- `math.MaxInt32` -/
+def goMaxInt32 : Int := 2147483647
+
+/-- `IndentFunc` (since /repo d4d90b0): a string without line breaks comes back as it is,
+whatever the count; a padding that would make the result longer than `math.MaxInt32`
+bytes is refused; Go's `/` on `int` truncates toward zero (`Int.tdiv`) -/
 def indentImpl (nfc : String → String) (args : List Value) : Res Value := do
   let spaces ← fromCtyInt (← arg args 0)
   if spaces < 0 then .err "the number of spaces must not be negative"
   else
     let data ← asString (← arg args 1)
-    if spaces > indentMax then .unmodelled
+    let lines := countNewlines data.toList
+    if lines == 0 then pure (stringVal nfc data)
+    else if spaces > Int.tdiv (goMaxInt32 - (data.utf8ByteSize : Int)) (lines : Int) then
+      .err "the number of spaces is too large: the resulting string would be too long"
     else pure (stringVal nfc (String.ofList (indentChars spaces.toNat data.toList)))
 
 end StdNum
